@@ -17,7 +17,7 @@ From Coq Require Import ZArith Znumtheory Arith List Bool Lia.
 Require Import Yui.Base.Ring Yui.Base.MatF Yui.Base.MatL Yui.Model.Snf.
 Require Import Yui.Model.KhCube Yui.Model.KhHomology.
 Require Import Yui.Proofs.C07Algebra Yui.Proofs.C09UniqueKer Yui.Proofs.C09UniqueDvd Yui.Proofs.C09Unique
-  Yui.Proofs.C09UniqueModP Yui.Proofs.C09UniqueKh Yui.Proofs.C09UniqueCor.
+  Yui.Proofs.C09UniqueModP Yui.Proofs.C09UniqueKh Yui.Proofs.C09UniqueCor Yui.Proofs.C09UniqueCanon.
 Require Import Yui.Proofs.C09Inv Yui.Proofs.C09Run Yui.Proofs.C09Total Yui.Proofs.C09Term Yui.Proofs.C09Elim
   Yui.Proofs.C09Laws Yui.Proofs.C09Quad.
 Require Import Yui.Proofs.KhSmithRows Yui.Proofs.KhSmithMat Yui.Proofs.KhSmithSteps Yui.Proofs.KhSmithMain.
@@ -148,6 +148,67 @@ Theorem C09_unique_D_Z :
   snf_factors (Zpre_dict pre) res = snf_factors (Zpre_dict pre') res'.
 Proof. exact Z_snf_D_unique. Qed.
 Print Assumptions C09_unique_D_Z.
+
+(* the same for every supported ring: normalised associates are equal ([nunit_canon]), so D, rank(), factors() are
+   functions of the input - for two dictionaries with the same ring and unit operations (with / without the LLL
+   preprocessing), any flags, any fuel *)
+Theorem C09_canon_meaning :
+  forall (R : Type) (D : euc_dict R),
+  nunit_canon D <->
+  forall a u v : R,
+    rmul (ed_ring D) u v = rone (ed_ring D) -> a <> rzero (ed_ring D) ->
+    rnunit (ed_unit D) a = rone (ed_ring D) ->
+    rnunit (ed_unit D) (rmul (ed_ring D) u a) = rone (ed_ring D) ->
+    rmul (ed_ring D) u a = a.
+Proof. intros R D. split; intros H; exact H. Qed.
+Print Assumptions C09_canon_meaning.
+
+Theorem C09_canon_rings :
+  (forall pre, nunit_canon (Zpre_dict pre)) /\
+  (forall pre, nunit_canon (gausspre_dict pre)) /\
+  (forall pre, nunit_canon (eisenpre_dict pre)) /\
+  (forall (F : Type) (o : ring_ops F) (finv : F -> F), ring_laws o -> rone o <> rzero o ->
+     (forall a, a <> rzero o -> rmul o a (finv a) = rone o) -> nunit_canon (field_dict o finv)).
+Proof. exact canon_rings. Qed.
+Print Assumptions C09_canon_rings.
+
+Theorem C09_unique_D :
+  forall (R : Type) (D D' : euc_dict R),
+  snf_laws D -> bezout (ed_ring D) -> nunit_canon D ->
+  ed_ring D' = ed_ring D -> ed_unit D' = ed_unit D ->
+  forall (m n : nat) (A : lmat R) (f1 f2 f3 f4 g1 g2 g3 g4 : bool) (res res' : snf_result R),
+  snf_spec D m n A f1 f2 f3 f4 res -> snf_spec D' m n A g1 g2 g3 g4 res' ->
+  sr_d res = sr_d res' /\ snf_rank D res = snf_rank D' res' /\ snf_factors D res = snf_factors D' res'.
+Proof. exact @snf_D_unique. Qed.
+Print Assumptions C09_unique_D.
+
+Theorem C09_unique_D_gauss :
+  forall (pre pre' : option (preproc quad)) (m n : nat) (A : lmat quad) (f1 f2 f3 f4 g1 g2 g3 g4 : bool)
+         (res res' : snf_result quad),
+  snf_spec (gausspre_dict pre) m n A f1 f2 f3 f4 res -> snf_spec (gausspre_dict pre') m n A g1 g2 g3 g4 res' ->
+  sr_d res = sr_d res' /\ snf_rank (gausspre_dict pre) res = snf_rank (gausspre_dict pre') res' /\
+  snf_factors (gausspre_dict pre) res = snf_factors (gausspre_dict pre') res'.
+Proof. exact gauss_snf_D_unique. Qed.
+Print Assumptions C09_unique_D_gauss.
+
+Theorem C09_unique_D_eisen :
+  forall (pre pre' : option (preproc quad)) (m n : nat) (A : lmat quad) (f1 f2 f3 f4 g1 g2 g3 g4 : bool)
+         (res res' : snf_result quad),
+  snf_spec (eisenpre_dict pre) m n A f1 f2 f3 f4 res -> snf_spec (eisenpre_dict pre') m n A g1 g2 g3 g4 res' ->
+  sr_d res = sr_d res' /\ snf_rank (eisenpre_dict pre) res = snf_rank (eisenpre_dict pre') res' /\
+  snf_factors (eisenpre_dict pre) res = snf_factors (eisenpre_dict pre') res'.
+Proof. exact eisen_snf_D_unique. Qed.
+Print Assumptions C09_unique_D_eisen.
+
+Theorem C09_unique_D_field :
+  forall (F : Type) (o : ring_ops F) (finv : F -> F),
+  ring_laws o -> rone o <> rzero o -> (forall a, a <> rzero o -> rmul o a (finv a) = rone o) ->
+  forall (m n : nat) (A : lmat F) (f1 f2 f3 f4 g1 g2 g3 g4 : bool) (res res' : snf_result F),
+  snf_spec (field_dict o finv) m n A f1 f2 f3 f4 res -> snf_spec (field_dict o finv) m n A g1 g2 g3 g4 res' ->
+  sr_d res = sr_d res' /\ snf_rank (field_dict o finv) res = snf_rank (field_dict o finv) res' /\
+  snf_factors (field_dict o finv) res = snf_factors (field_dict o finv) res'.
+Proof. exact @field_snf_D_unique. Qed.
+Print Assumptions C09_unique_D_field.
 
 (* SnfResult::factors = the first rank() diagonal entries *)
 Theorem C09_factors :
